@@ -6,6 +6,7 @@ import (
 	"fmt"
 	"regexp"
 	"strconv"
+	"strings"
 	"sync/atomic"
 	"time"
 
@@ -29,6 +30,7 @@ type ScParams struct {
 	Lv     string   `json:"lv"`
 	Nsw    bool     `json:"nsw"`
 	Vals   int      `json:"vals"`
+	Fk     string   `json:"fk"` // C07: how the "t" nodes fail: crash, downbefore, never
 }
 
 // HStep is one environment action of a generated history.
@@ -68,10 +70,23 @@ type errInfo struct {
 	nerr     int
 	nrep     int
 	errnodes []int
+	// details: per node error [node, status code, carries the handler's message]
+	details [][]interface{}
 }
 
+var reNodeLine = regexp.MustCompile(`(?m)^\tnode (\d+): (.*)$`)
+var reCode = regexp.MustCompile(`code = (\w+)`)
+
+var codeByName = func() map[string]int {
+	m := map[string]int{}
+	for c := codes.Code(0); c <= 16; c++ {
+		m[c.String()] = int(c)
+	}
+	return m
+}()
+
 func classify(err error) errInfo {
-	ei := errInfo{tag: "ok", cause: "none", errnodes: []int{}}
+	ei := errInfo{tag: "ok", cause: "none", errnodes: []int{}, details: [][]interface{}{}}
 	if err == nil {
 		return ei
 	}
@@ -94,6 +109,16 @@ func classify(err error) errInfo {
 	for _, m := range reNode.FindAllStringSubmatch(err.Error(), -1) {
 		id, _ := strconv.Atoi(m[1])
 		ei.errnodes = append(ei.errnodes, id)
+	}
+	for _, m := range reNodeLine.FindAllStringSubmatch(err.Error(), -1) {
+		id, _ := strconv.Atoi(m[1])
+		code := -1
+		if c := reCode.FindStringSubmatch(m[2]); c != nil {
+			if v, ok := codeByName[c[1]]; ok {
+				code = v
+			}
+		}
+		ei.details = append(ei.details, []interface{}{id, code, strings.Contains(m[2], fmt.Sprintf("-%d", id)) && strings.Contains(m[2], "fail-")})
 	}
 	return ei
 }
@@ -240,7 +265,7 @@ func (r *Runner) Invoke(tok uint64, method, kind string, cfg *puppet.Configurati
 		errtext = err.Error()
 	}
 	tr.Emit("StubRet", 0, tok, "panicked", panicked, "tag", ei.tag, "cause", ei.cause, "qfidx", idx, "restok", restok,
-		"resnil", isNil, "nerr", ei.nerr, "nrep", ei.nrep, "errnodes", ei.errnodes, "errtext", errtext)
+		"resnil", isNil, "nerr", ei.nerr, "nrep", ei.nrep, "errnodes", ei.errnodes, "errdetails", ei.details, "errtext", errtext)
 }
 
 func (r *Runner) obsAsync(tok uint64, obj *callObj, wait bool) {
@@ -273,7 +298,7 @@ func (r *Runner) obsAsync(tok uint64, obj *callObj, wait bool) {
 	}
 	if !done() {
 		r.E.Tr.Emit("ObsAsync", 0, tok, "done", false, "stable", true, "tag", "none", "cause", "none", "qfidx", 0,
-			"restok", 0, "resnil", true, "nerr", 0, "nrep", 0, "errnodes", []int{})
+			"restok", 0, "resnil", true, "nerr", 0, "nrep", 0, "errnodes", []int{}, "errdetails", [][]interface{}{})
 		return
 	}
 	type one struct {
@@ -304,7 +329,8 @@ func (r *Runner) obsAsync(tok uint64, obj *callObj, wait bool) {
 	}
 	o := obs[0]
 	r.E.Tr.Emit("ObsAsync", 0, tok, "done", true, "stable", stable, "tag", o.ei.tag, "cause", o.ei.cause, "qfidx", o.idx,
-		"restok", o.restok, "resnil", o.isNil, "nerr", o.ei.nerr, "nrep", o.ei.nrep, "errnodes", o.ei.errnodes)
+		"restok", o.restok, "resnil", o.isNil, "nerr", o.ei.nerr, "nrep", o.ei.nrep, "errnodes", o.ei.errnodes,
+		"errdetails", o.ei.details)
 }
 
 func (r *Runner) obsCorr(tok uint64, obj *callObj) {
@@ -386,6 +412,23 @@ func (r *Runner) Run(s Scenario) uint64 {
 		h = h[1:]
 		ctxBefore = true
 	}
+	if sc.Fk == "downbefore" {
+		// C07: the failing nodes are stopped before the call is issued
+		for _, st := range h {
+			if st.A == "t" {
+				tr.Emit("NodeDown", uint32(st.N), tok)
+				e.Server(st.N).Stop()
+			}
+		}
+		time.Sleep(5 * time.Millisecond)
+	}
+	if sc.Fk == "never" {
+		for _, st := range h {
+			if st.A == "t" {
+				tr.Emit("NodeDown", uint32(st.N), tok)
+			}
+		}
+	}
 	stubDone := make(chan struct{})
 	go func() {
 		defer close(stubDone)
@@ -434,8 +477,28 @@ func (r *Runner) Run(s Scenario) uint64 {
 		if stuck {
 			break
 		}
+		if ended() {
+			// the call has already ended (errors of nodes that were down arrive
+			// by themselves): the rest of the script cannot be observed by it
+			break
+		}
 		pos := tr.Len()
 		switch st.A {
+		case "t":
+			// the connection to node st.N fails
+			if sc.Fk == "crash" {
+				if r.awaitTok(tok, from, func(ev vtrace.Event) bool { return ev.Ev == "HStart" && int(ev.Node) == st.N }) < 0 {
+					stuck = true
+					break
+				}
+				commanded[st.N] = 1 << 20
+				tr.Emit("NodeDown", uint32(st.N), tok)
+				e.Server(st.N).Stop()
+				if r.awaitTok(tok, pos, isEv("CallLoop", "CallEnd")) < 0 {
+					stuck = true
+				}
+			}
+			// downbefore / never: the node was down before the call was issued
 		case "r":
 			if r.awaitTok(tok, from, func(ev vtrace.Event) bool { return ev.Ev == "HStart" && int(ev.Node) == st.N }) < 0 {
 				stuck = true
